@@ -64,13 +64,15 @@ Fixpoint row_select (row : list N) (b idx : nat) : N :=
   end.
 
 (* loopNN_sse: for every 16-byte row: load it, select, accumulate, dec/jne.
-   [site] names the loop branch; it is taken while rows remain. *)
+   [site] names the loop branch, taken while rows remain; site 0 = the fully unrolled
+   lookups (lookup_16x8bit_*, S2_BOX_SSE), which have no branch. *)
+Definition br_ev (site : nat) (taken : bool) : trace :=
+  if Nat.eqb site 0 then [] else [Br site taken].
 Fixpoint scan_rows (r : region) (site : nat) (rows : list (list N)) (b off idx : nat) (acc : N) : M N :=
   match rows with
   | [] => ret acc
   | row :: rest =>
-      emit (Ld r off 16) ;;;
-      emit (Br site (negb (Nat.eqb (length rest) 0))) ;;;
+      emits (Ld r off 16 :: br_ev site (negb (Nat.eqb (length rest) 0))) ;;;
       scan_rows r site rest (b + length row) (off + 16) idx (N.lor acc (row_select row b idx))
   end.
 Definition scan (r : region) (site : nat) (rows : list (list N)) (idx : nat) : M N :=
@@ -80,7 +82,7 @@ Definition scan (r : region) (site : nat) (rows : list (list N)) (idx : nat) : M
 Fixpoint scan_trace (r : region) (site nrows off : nat) : trace :=
   match nrows with
   | O => []
-  | S n => Ld r off 16 :: Br site (negb (Nat.eqb n 0)) :: scan_trace r site n (off + 16)
+  | S n => (Ld r off 16 :: br_ev site (negb (Nat.eqb n 0))) ++ scan_trace r site n (off + 16)
   end.
 
 (* The parallel lookups (lookup_16x8bit_*, lookup_32x8bit_avx2, S2_BOX_SSE): the same 16
@@ -118,7 +120,7 @@ Definition des_sboxes_rev_idx : list (nat * list (list N)) :=
 
 Definition SITE_LOOKUP32 : nat := 1.   (* jne loop32_sse *)
 Definition SITE_LOOKUP16 : nat := 2.   (* jne loop16_sse *)
-Definition SITE_LOOKUP16x8 : nat := 3. (* unrolled: no branch; used as a tag only *)
+Definition SITE_UNROLLED : nat := 0.  (* lookup_16x8bit_*: unrolled, no branch *)
 
 Fixpoint des_S_leak_aux (sb : list (nat * list (list N))) (x : N) : M N :=
   match sb with
@@ -279,3 +281,464 @@ Fixpoint chunk_lens (fuel len : nat) : list nat :=
   end.
 Definition des_job_trace (tE tB : trace) (cfb : bool) (len : nat) : trace :=
   Ld R_iv 0 8 :: cbc64_trace tE tB cfb 0 (chunk_lens len len).
+
+(* ------------------------------------------------------------------------- *)
+(** * KASUMI (kasumi_internal.h)                                              *)
+(* ------------------------------------------------------------------------- *)
+(* FIp1: LOOKUP16_SSE(sso_kasumi_S7e, idx, 256) = 32 rows of 8 uint16,
+         LOOKUP16_SSE(sso_kasumi_S9e, idx, 512) = 64 rows.
+   sso_kasumi_S7e holds the 128 S7 entries twice (so that an 8-bit index works) and
+   both "e" tables hold pre-arranged combinations of S7/S9 and the index; the model scans
+   tables of the same geometry holding the plain S7 (second half zero) and S9 values and
+   does the re-arrangement in registers: same accesses, same function. *)
+Definition kasumi_S7_rows : list (list N) := rows_of 8 32 (kasumi_S7 ++ repeat 0 128).
+Definition kasumi_S9_rows : list (list N) := rows_of 8 64 kasumi_S9.
+Definition S7_leak (x : N) : M N := scan R_kasumi_S7 SITE_LOOKUP16 kasumi_S7_rows (N.to_nat x).
+Definition S9_leak (x : N) : M N := scan R_kasumi_S9 SITE_LOOKUP16 kasumi_S9_rows (N.to_nat x).
+
+(* source order: S7e then S9e, twice *)
+Definition kasumi_FI_leak (x ki : N) : M N :=
+  let nine0  := N.shiftr x 7 in
+  let seven0 := N.land x 127 in
+  s7a <- S7_leak seven0 ;;
+  s9a <- S9_leak nine0 ;;
+  let nine1  := N.lxor s9a seven0 in
+  let seven1 := N.lxor s7a (N.land nine1 127) in
+  let seven2 := N.lxor seven1 (N.shiftr ki 9) in
+  let nine2  := N.lxor nine1 (N.land ki 511) in
+  s7b <- S7_leak seven2 ;;
+  s9b <- S9_leak nine2 ;;
+  let nine3  := N.lxor s9b seven2 in
+  let seven3 := N.lxor s7b (N.land nine3 127) in
+  ret (N.lor (N.shiftl seven3 9) nine3).
+
+(* the schedule is an array of 64 uint16 read with public indices: *(index + j) *)
+Definition kk (sk : list N) (i : nat) : N := nth i sk 0.
+Definition ks_ld (kr i : nat) : M unit := emit (Ld (R_ks kr) (2 * i) 2).
+
+Definition kasumi_FL_leak (kr : nat) (sk : list N) (base : nat) (x : N) : M N :=
+  ks_ld kr base ;;; ks_ld kr (base + 1) ;;;
+  ret (kasumi_FL x (kk sk base) (kk sk (base + 1))).
+
+Definition kasumi_FO_leak (kr : nat) (sk : list N) (base : nat) (x : N) : M N :=
+  let l0 := N.shiftr x 16 in
+  let r0 := w16 x in
+  ks_ld kr (base + 2) ;;; ks_ld kr (base + 3) ;;;
+  f1 <- kasumi_FI_leak (N.lxor l0 (kk sk (base + 2))) (kk sk (base + 3)) ;;
+  let l1 := N.lxor f1 r0 in
+  ks_ld kr (base + 4) ;;; ks_ld kr (base + 5) ;;;
+  f2 <- kasumi_FI_leak (N.lxor r0 (kk sk (base + 4))) (kk sk (base + 5)) ;;
+  let r1 := N.lxor f2 l1 in
+  ks_ld kr (base + 6) ;;; ks_ld kr (base + 7) ;;;
+  f3 <- kasumi_FI_leak (N.lxor l1 (kk sk (base + 6))) (kk sk (base + 7)) ;;
+  let l2 := N.lxor f3 r1 in
+  ret (N.lor (N.shiftl r1 16) l2).
+
+(* kasumi_1_block: do { odd round FL,FO; even round FO,FL; context += 16 } while (context < end) *)
+Definition SITE_KASUMI_LOOP : nat := 20.
+Fixpoint kasumi_rounds_leak (kr : nat) (sk : list N) (n base : nat) (l r : N) : M (N * N) :=
+  match n with
+  | O => ret (l, r)
+  | S n' =>
+      a <- kasumi_FL_leak kr sk base l ;;
+      fo <- kasumi_FO_leak kr sk base a ;;
+      let r1 := N.lxor r fo in
+      b <- kasumi_FO_leak kr sk (base + 8) r1 ;;
+      fl <- kasumi_FL_leak kr sk (base + 8) b ;;
+      let l1 := N.lxor l fl in
+      emit (Br SITE_KASUMI_LOOP (negb (Nat.eqb n' 0))) ;;;
+      kasumi_rounds_leak kr sk n' (base + 16) l1 r1
+  end.
+Definition kasumi_enc_leak (kr : nat) (sk : list N) (x : N) : M N :=
+  lr <- kasumi_rounds_leak kr sk 4 0 (w32 (N.shiftr x 32)) (w32 x) ;;
+  ret (N.lor (N.shiftl (fst lr) 32) (snd lr)).
+
+(** ** f8 (kasumi_f8_1_buffer / kasumi_f8_1_buffer_bit) *)
+(* key stream: A = KASUMI_msk(IV); b = KASUMI_sk(A ^ cnt ^ prev) per block.  [dt i] is the
+   public list of data events (loads of src, stores to dst, length tests) the C code
+   performs after block i. *)
+Fixpoint kasumi_f8_ks_leak (dt : nat -> trace) (i n : nat) (sk : list N) (a prev cnt : N) : M (list N) :=
+  match n with
+  | O => ret []
+  | S n' =>
+      b <- kasumi_enc_leak 0 sk (N.lxor (N.lxor a cnt) prev) ;;
+      emits (dt i) ;;;
+      rest <- kasumi_f8_ks_leak dt (S i) n' sk a b (cnt + 1) ;;
+      ret (b :: rest)
+  end.
+
+Definition SITE_F8_BITPATH : nat := 21.
+Definition SITE_F8_WHILE : nat := 22.
+Definition SITE_F8_GT8 : nat := 23.
+Definition SITE_F8_LT8 : nat := 24.
+Definition SITE_F8_ONEBLOCK : nat := 25.
+Definition SITE_F8_OOP_OFF : nat := 26.
+Definition SITE_F8_LASTPART : nat := 27.
+
+(* byte path, [n] bytes, source offset [q]: events after key-stream block i *)
+Definition kasumi_f8_byte_dt (q n i : nat) : trace :=
+  let rem := (n - 8 * i)%nat in
+  [Br SITE_F8_GT8 (Nat.ltb 8 rem)] ++
+  (if Nat.ltb 8 rem then [Ld R_src (q + 8 * i) 8; St R_dst (8 * i) 8]
+   else [Br SITE_F8_LT8 (Nat.ltb rem 8)] ++
+        (if Nat.ltb rem 8 then [Ld R_src (q + 8 * i) rem; St R_dst (8 * i) rem]
+         else [Ld R_src (q + 8 * i) 8; St R_dst (8 * i) 8])) ++
+  [Br SITE_F8_WHILE (Nat.ltb 8 rem)].
+
+(* bit path: [q] = byte offset, [r] = bit offset 0..7, [len] = bit length, [inplace]:
+   first block: `if (cipherLengthInBits < 64 - remainOffset)` single-block case, else a whole
+   8-byte block; then per block: whole block or the last partial one (preserve_bits reads
+   the output buffer when the last byte is partial and the operation is out of place). *)
+Definition kasumi_f8_bit_dt (inplace : bool) (q r len i : nat) : trace :=
+  match i with
+  | O =>
+      let one := Nat.ltb len (64 - r) in
+      [Br SITE_F8_ONEBLOCK one] ++
+      (if one then
+         let bl := Nat.div (len + 7) 8 in
+         [Ld R_src q bl; Br SITE_F8_OOP_OFF (negb inplace && negb (Nat.eqb r 0))] ++
+         (if (negb inplace && negb (Nat.eqb r 0))%bool then [Ld R_dst q 1] else []) ++
+         [Br SITE_F8_LASTPART (negb (Nat.eqb (Nat.modulo (r + len) 8) 0))] ++
+         (if (negb (Nat.eqb (Nat.modulo (r + len) 8) 0) && negb inplace)%bool then [Ld R_dst q bl] else []) ++
+         [St R_dst q bl]
+       else
+         [Br SITE_F8_OOP_OFF (negb inplace && negb (Nat.eqb r 0))] ++
+         (if (negb inplace && negb (Nat.eqb r 0))%bool then [Ld R_src q 8; Ld R_dst q 1; St R_dst q 8]
+          else [Ld R_src q 8; St R_dst q 8]) ++
+         [Br SITE_F8_WHILE (negb (Nat.eqb (len - (64 - r)) 0))])
+  | S _ =>
+      let rem := (len - (64 - r) - 64 * (i - 1))%nat in   (* bits still to do before block i *)
+      [Br SITE_F8_GT8 (Nat.leb 64 rem)] ++
+      (if Nat.leb 64 rem then
+         [Ld R_src (q + 8 * i) 8; St R_dst (q + 8 * i) 8; Br SITE_F8_WHILE (negb (Nat.eqb (rem - 64) 0))]
+       else
+         let bl := Nat.div (rem + 7) 8 in
+         [Ld R_src (q + 8 * i) bl; Br SITE_F8_LASTPART (negb (Nat.eqb (Nat.modulo rem 8) 0))] ++
+         (if (negb (Nat.eqb (Nat.modulo rem 8) 0) && negb inplace)%bool then [Ld R_dst (q + 8 * i) bl] else []) ++
+         [St R_dst (q + 8 * i) bl; Br SITE_F8_WHILE false])
+  end.
+
+(* The job with explicit schedules: Spec.KASUMI.kasumi_f8_job with the key stream taken
+   from a list of 64-bit blocks. *)
+Definition kasumi_f8_post (ksw : list N) (src dst : bytes) (bitlen bitoff : N) : bytes :=
+  let q := N.to_nat (N.shiftr bitoff 3) in
+  let r := N.land bitoff 7 in
+  let ks := flat_map be64 ksw in
+  if (N.land bitlen 7 =? 0) && (r =? 0) then
+    let n := N.to_nat (N.shiftr bitlen 3) in
+    xor_bytes (firstn n (pad_right n (skipn q src))) ks ++ skipn n dst
+  else
+    let nb := if bitlen <? 64 - r then ceil_div8 bitlen else ceil_div8 (r + bitlen) in
+    let cs := firstn (N.to_nat nb) (shift_stream r 0 ks) in
+    firstn q dst ++ f8_merge cs (skipn q src) (skipn q dst) r (r + bitlen) 0.
+Definition kasumi_f8_nblocks (bitlen bitoff : N) : nat :=
+  let r := N.land bitoff 7 in
+  if (N.land bitlen 7 =? 0) && (r =? 0) then N.to_nat (ceil_div64 bitlen)
+  else N.to_nat (ceil_div64 (r + bitlen)).
+Definition kasumi_f8_sk (sk msk : list N) (iv src dst : bytes) (bitlen bitoff : N) : bytes :=
+  let a := kasumi_enc_w msk (be_to_N (firstn 8 (pad_right 8 iv))) in
+  kasumi_f8_post (kasumi_f8_ks_loop (kasumi_f8_nblocks bitlen bitoff) sk a 0 0) src dst bitlen bitoff.
+
+Definition kasumi_f8_dt (inplace : bool) (bitlen bitoff : N) : nat -> trace :=
+  let q := N.to_nat (N.shiftr bitoff 3) in
+  let r := N.to_nat (N.land bitoff 7) in
+  if (N.land bitlen 7 =? 0) && (N.land bitoff 7 =? 0)
+  then kasumi_f8_byte_dt q (N.to_nat (N.shiftr bitlen 3))
+  else kasumi_f8_bit_dt inplace q r (N.to_nat bitlen).
+
+Definition kasumi_f8_leak (inplace : bool) (sk msk : list N) (iv src dst : bytes) (bitlen bitoff : N) : M bytes :=
+  emit (Ld R_iv 0 8) ;;;
+  emit (Br SITE_F8_BITPATH (negb ((N.land bitlen 7 =? 0) && (N.land bitoff 7 =? 0)))) ;;;
+  a <- kasumi_enc_leak 1 msk (be_to_N (firstn 8 (pad_right 8 iv))) ;;
+  ksw <- kasumi_f8_ks_leak (kasumi_f8_dt inplace bitlen bitoff) 0 (kasumi_f8_nblocks bitlen bitoff) sk a 0 0 ;;
+  ret (kasumi_f8_post ksw src dst bitlen bitoff).
+
+(** ** f9 (kasumi_f9_1_buffer) *)
+Definition SITE_F9_WHILE : nat := 28.
+Definition SITE_F9_PARTIAL : nat := 29.
+Fixpoint kasumi_f9_loop_leak (sk : list N) (i : nat) (lens : list nat) (blocks : list N) (a b : N) : M N :=
+  match blocks with
+  | [] => emit (Br SITE_F9_WHILE false) ;;; emit (Br SITE_F9_PARTIAL false) ;;; ret b
+  | p :: t =>
+      let len := hd 0%nat lens in
+      (if Nat.eqb len 8 then emit (Br SITE_F9_WHILE true)
+       else emit (Br SITE_F9_WHILE false) ;;; emit (Br SITE_F9_PARTIAL true)) ;;;
+      emit (Ld R_src (8 * i) len) ;;;
+      a' <- kasumi_enc_leak 0 sk (N.lxor a p) ;;
+      (if Nat.eqb len 8 then kasumi_f9_loop_leak sk (S i) (tl lens) t a' (N.lxor b a')
+       else ret (kasumi_f9_loop sk t a' (N.lxor b a')))
+  end.
+Definition kasumi_f9_sk (sk msk : list N) (msg : bytes) : bytes :=
+  let blocks := map (fun c => be_to_N (pad_right 8 c)) (chunks 8 msg) in
+  be32 (N.shiftr (kasumi_enc_w msk (kasumi_f9_loop sk blocks 0 0)) 32).
+Definition kasumi_f9_leak (sk msk : list N) (msg : bytes) : M bytes :=
+  let cs := chunks 8 msg in
+  b <- kasumi_f9_loop_leak sk 0 (map (@length N) cs) (map (fun c => be_to_N (pad_right 8 c)) cs) 0 0 ;;
+  m <- kasumi_enc_leak 1 msk b ;;
+  emit (St R_tag 0 4) ;;;
+  ret (be32 (N.shiftr m 32)).
+
+(** ** Public trace functions of KASUMI *)
+Definition S7_trace : trace := scan_trace R_kasumi_S7 SITE_LOOKUP16 32 0.
+Definition S9_trace : trace := scan_trace R_kasumi_S9 SITE_LOOKUP16 64 0.
+Definition kasumi_FI_trace : trace := S7_trace ++ S9_trace ++ S7_trace ++ S9_trace.
+Definition ks_ld_trace (kr i : nat) : trace := [Ld (R_ks kr) (2 * i) 2].
+Definition kasumi_FL_trace (kr base : nat) : trace := ks_ld_trace kr base ++ ks_ld_trace kr (base + 1).
+Definition kasumi_FO_trace (kr base : nat) : trace :=
+  ks_ld_trace kr (base + 2) ++ ks_ld_trace kr (base + 3) ++ kasumi_FI_trace ++
+  ks_ld_trace kr (base + 4) ++ ks_ld_trace kr (base + 5) ++ kasumi_FI_trace ++
+  ks_ld_trace kr (base + 6) ++ ks_ld_trace kr (base + 7) ++ kasumi_FI_trace.
+Fixpoint kasumi_rounds_trace (kr n base : nat) : trace :=
+  match n with
+  | O => []
+  | S n' =>
+      kasumi_FL_trace kr base ++ kasumi_FO_trace kr base ++
+      kasumi_FO_trace kr (base + 8) ++ kasumi_FL_trace kr (base + 8) ++
+      [Br SITE_KASUMI_LOOP (negb (Nat.eqb n' 0))] ++ kasumi_rounds_trace kr n' (base + 16)
+  end.
+Definition kasumi_enc_trace (kr : nat) : trace := kasumi_rounds_trace kr 4 0.
+Fixpoint kasumi_f8_ks_trace (dt : nat -> trace) (i n : nat) : trace :=
+  match n with
+  | O => []
+  | S n' => kasumi_enc_trace 0 ++ dt i ++ kasumi_f8_ks_trace dt (S i) n'
+  end.
+Definition kasumi_f8_trace (inplace : bool) (bitlen bitoff : N) : trace :=
+  [Ld R_iv 0 8; Br SITE_F8_BITPATH (negb ((N.land bitlen 7 =? 0) && (N.land bitoff 7 =? 0)))] ++
+  kasumi_enc_trace 1 ++
+  kasumi_f8_ks_trace (kasumi_f8_dt inplace bitlen bitoff) 0 (kasumi_f8_nblocks bitlen bitoff).
+Fixpoint kasumi_f9_loop_trace (i : nat) (lens : list nat) : trace :=
+  match lens with
+  | [] => [Br SITE_F9_WHILE false; Br SITE_F9_PARTIAL false]
+  | len :: t =>
+      (if Nat.eqb len 8 then [Br SITE_F9_WHILE true]
+       else [Br SITE_F9_WHILE false; Br SITE_F9_PARTIAL true]) ++
+      [Ld R_src (8 * i) len] ++ kasumi_enc_trace 0 ++
+      (if Nat.eqb len 8 then kasumi_f9_loop_trace (S i) t else [])
+  end.
+Definition kasumi_f9_trace (len : nat) : trace :=
+  kasumi_f9_loop_trace 0 (chunk_lens len len) ++ kasumi_enc_trace 1 ++ [St R_tag 0 4].
+
+(* ------------------------------------------------------------------------- *)
+(** * SNOW3G (snow3g_common.h, snow3g_uea2_by4_sse.inc)                        *)
+(* ------------------------------------------------------------------------- *)
+(* SAFE_LOOKUP build: S1 = AESENC (no table); S2 = the 256-byte table snow3g_invSR_SQ /
+   snow3g_inv_SR_SQ looked up with lookup_16x8bit_* / S2_BOX_SSE (16 row loads, the index
+   vector holds all bytes to look up), then AESENC; MULalpha / DIValpha = 8 + 8 fixed loads of
+   16-byte nibble tables used as PSHUFB operands (linear maps: T(c) = T_lo(c & 15) ^ T_hi(c >> 4)).
+   The model's S2 table holds SQ itself and applies the MixColumn of the standard in
+   registers (the library stores invSR(SQ(x)) and lets AESENC do SR and the mixing). *)
+Definition snow3g_SQ_rows : list (list N) := rows_of 16 16 snow3g_SQ.
+Definition snow3g_S2_leak (w : N) : M N :=
+  vs <- scan_vec R_snow3g_S2 SITE_UNROLLED snow3g_SQ_rows
+          [N.to_nat (w8 (N.shiftr w 24)); N.to_nat (w8 (N.shiftr w 16));
+           N.to_nat (w8 (N.shiftr w 8)); N.to_nat (w8 w)] ;;
+  ret (snow3g_mix 0x69 (nth 0 vs 0) (nth 1 vs 0) (nth 2 vs 0) (nth 3 vs 0)).
+
+Definition alpha_trace (r : region) : trace := map (fun k => Ld r (16 * k) 16) (seq 0 8).
+(* low-nibble table = entries 0..15 of the 256-entry table, high-nibble table = entries 0,16,..,240 *)
+Definition nib_lookup (tab : list N) (c : N) : N :=
+  N.lxor (nth (N.to_nat (N.land c 15)) tab 0) (nth (N.to_nat (N.shiftl (N.shiftr c 4) 4)) tab 0).
+Definition snow3g_mula_leak (c : N) : M N :=
+  emits (alpha_trace R_snow3g_mula) ;;; ret (nib_lookup snow3g_MULa_tab (w8 c)).
+Definition snow3g_diva_leak (c : N) : M N :=
+  emits (alpha_trace R_snow3g_diva) ;;; ret (nib_lookup snow3g_DIVa_tab (w8 c)).
+
+Definition snow3g_lfsr_step_leak (s : list N) (f : N) : M (list N) :=
+  m <- snow3g_mula_leak (N.shiftr (hd 0 s) 24) ;;
+  d <- snow3g_diva_leak (nth 11 s 0) ;;
+  ret (match s with
+       | [s0; s1; s2; s3; s4; s5; s6; s7; s8; s9; s10; s11; s12; s13; s14; s15] =>
+           let v := N.lxor (N.lxor (N.lxor (N.lxor (N.lxor
+                      (N.shiftl (N.land s0 0xFFFFFF) 8) m) s2) (N.shiftr s11 8)) d) f in
+           [s1; s2; s3; s4; s5; s6; s7; s8; s9; s10; s11; s12; s13; s14; s15; v]
+       | _ => s
+       end).
+
+Definition snow3g_fsm_step_leak (st : snow3g_state) : M (N * N * N * N) :=
+  s2 <- snow3g_S2_leak (snow3g_r2 st) ;;
+  ret (match snow3g_lfsr st with
+       | [_; _; _; _; _; s5; _; _; _; _; _; _; _; _; _; s15] =>
+           let f := N.lxor (add32 s15 (snow3g_r1 st)) (snow3g_r2 st) in
+           let r := add32 (snow3g_r2 st) (N.lxor (snow3g_r3 st) s5) in
+           (f, r, snow3g_S1 (snow3g_r1 st), s2)
+       | _ => (0, 0, 0, 0)
+       end).
+
+(* one clock, asm order: FSM (S2 scan), then mul_alpha, div_alpha *)
+Definition snow3g_init_round_leak (st : snow3g_state) : M snow3g_state :=
+  x <- snow3g_fsm_step_leak st ;;
+  l <- snow3g_lfsr_step_leak (snow3g_lfsr st) (fst (fst (fst x))) ;;
+  ret (mk_snow3g_state l (snd (fst (fst x))) (snd (fst x)) (snd x)).
+Definition snow3g_ks_round_leak (st : snow3g_state) : M (N * snow3g_state) :=
+  x <- snow3g_fsm_step_leak st ;;
+  l <- snow3g_lfsr_step_leak (snow3g_lfsr st) 0 ;;
+  ret (N.lxor (fst (fst (fst x))) (hd 0 (snow3g_lfsr st)),
+       mk_snow3g_state l (snd (fst (fst x))) (snd (fst x)) (snd x)).
+Definition snow3g_clock_trace : trace :=
+  scan_trace R_snow3g_S2 SITE_UNROLLED 16 0 ++ alpha_trace R_snow3g_mula ++ alpha_trace R_snow3g_diva.
+
+Fixpoint iterM {A} (n : nat) (f : A -> M A) (x : A) : M A :=
+  match n with O => ret x | S k => y <- f x ;; iterM k f y end.
+
+(* multi-buffer asm path (snow3g_uea2_by4_sse.inc; byte-aligned UEA2 and every UIA2 job, on
+   SSE and AVX2 type 1): 32 initialisation clocks, one discarded key-stream clock, then one
+   clock per 32-bit key-stream word. *)
+Definition snow3g_init_leak (s : list N) : M snow3g_state :=
+  st <- iterM 32 snow3g_init_round_leak (mk_snow3g_state s 0 0 0) ;;
+  x <- snow3g_ks_round_leak st ;;
+  ret (snd x).
+Fixpoint snow3g_gen_leak (n : nat) (st : snow3g_state) : M (list N) :=
+  match n with
+  | O => ret []
+  | S k => x <- snow3g_ks_round_leak st ;; rest <- snow3g_gen_leak k (snd x) ;; ret (fst x :: rest)
+  end.
+
+(* C path (SNOW3G_F8_1_BUFFER_BIT -> SNOW3G_F8_1_BUFFER; UEA2 jobs whose bit length or bit
+   offset is not a multiple of 8): snow3gStateInitialize_1 and snow3g_keystream_1_8 merge two
+   clocks and put both words into ONE vector for MULa_2 / DIVa_2 / S2_box_2, i.e. one pass
+   over the tables serves two clocks (source order: MULa, DIVa, S2). *)
+Definition snow3g_clock_trace_c : trace :=
+  alpha_trace R_snow3g_mula ++ alpha_trace R_snow3g_diva ++ scan_trace R_snow3g_S2 SITE_UNROLLED 16 0.
+Definition snow3g_init_round2_leak (st : snow3g_state) : M snow3g_state :=
+  (fst (snow3g_init_round_leak (fst (snow3g_init_round_leak st))), snow3g_clock_trace_c).
+Definition snow3g_ks_round2_leak (st : snow3g_state) : M (N * N * snow3g_state) :=
+  let a := fst (snow3g_ks_round_leak st) in
+  let b := fst (snow3g_ks_round_leak (snd a)) in
+  ((fst a, fst b, snd b), snow3g_clock_trace_c).
+Definition snow3g_ks_round1_c_leak (st : snow3g_state) : M (N * snow3g_state) :=
+  (fst (snow3g_ks_round_leak st), snow3g_clock_trace_c).
+Definition snow3g_init_c_leak (s : list N) : M snow3g_state :=
+  st <- iterM 16 snow3g_init_round2_leak (mk_snow3g_state s 0 0 0) ;;
+  x <- snow3g_ks_round1_c_leak st ;;
+  ret (snd x).
+(* f8_snow3g: double clocks while at least two words are needed, a single clock for one *)
+Fixpoint snow3g_gen_c_leak (n : nat) (st : snow3g_state) : M (list N) :=
+  match n with
+  | O => ret []
+  | S O => x <- snow3g_ks_round1_c_leak st ;; ret [fst x]
+  | S (S k) =>
+      x <- snow3g_ks_round2_leak st ;;
+      rest <- snow3g_gen_c_leak k (snd x) ;;
+      ret (fst (fst x) :: snd (fst x) :: rest)
+  end.
+
+Definition snow3g_state0 (key iv : bytes) : list N :=
+  snow3g_load (snow3g_word key 12) (snow3g_word key 8) (snow3g_word key 4) (snow3g_word key 0)
+              (snow3g_word iv 12) (snow3g_word iv 8) (snow3g_word iv 4) (snow3g_word iv 0).
+Definition snow3g_keyiv_trace : trace :=
+  map (fun i => Ld (R_ks 0) (4 * i) 4) (seq 0 4) ++ [Ld R_iv 0 16].
+
+(** ** UEA2 job: Spec.SNOW3G.snow3g_uea2_job with the key stream as a parameter *)
+Definition snow3g_f8_bits_post (ksw : list N) (src dst : bytes) (bitlen ob : N) : bytes :=
+  let ks := snow3g_ks_bytes ksw in
+  let nb := N.to_nat (N.shiftr (ob + bitlen + 7) 3) in
+  if ob =? 0 then
+    xor_bytes (snow3g_take_bits bitlen src) ks ++ skipn nb dst
+  else
+    let ones := snow3g_ones nb bitlen in
+    let mask := firstn nb (snow3g_shr_bits ob 0 ones) in
+    let kss := snow3g_shr_bits ob 0 (snow3g_and_bytes ks ones) in
+    let new := snow3g_merge mask (xor_bytes_l (firstn nb src) kss) dst in
+    let new := if N.land (ob + bitlen) 7 =? 0
+               then firstn (nb - 1) new ++ [N.lor (nth_N new (nb - 1)) (nth_N dst (nb - 1))]
+               else new in
+    new ++ skipn nb dst.
+Definition snow3g_uea2_post (ksw : list N) (src dst : bytes) (bitlen bitoff : N) : bytes :=
+  let base := N.to_nat (N.shiftr bitoff 3) in
+  let ob := N.land bitoff 7 in
+  if (N.land bitlen 7 =? 0) && (ob =? 0) then
+    let n := N.to_nat (N.shiftr bitlen 3) in
+    xor_bytes (firstn n (skipn base src)) (snow3g_ks_bytes ksw) ++ skipn n dst
+  else
+    firstn base dst ++ snow3g_f8_bits_post ksw (skipn base src) (skipn base dst) bitlen ob.
+Definition snow3g_nwords (bitlen : N) : nat := N.to_nat (N.shiftr (bitlen + 31) 5).
+
+Definition SITE_UEA2_ALIGNED : nat := 30.
+(* data events (coarse, by public quantities only): aligned path one load / store per key
+   stream word; bit path: msg_shl_copy (src -> dst), in-place xor per word, msg_shr *)
+Definition snow3g_uea2_dt (aligned : bool) (bitlen bitoff : N) : trace :=
+  let q := N.to_nat (N.shiftr bitoff 3) in
+  let n := snow3g_nwords bitlen in
+  if aligned then flat_map (fun i => [Ld R_src (q + 4 * i) 4; St R_dst (4 * i) 4]) (seq 0 n)
+  else
+    let nb := N.to_nat (N.shiftr (N.land bitoff 7 + bitlen + 7) 3) in
+    [Ld R_dst q nb; Ld R_src q nb; St R_dst q nb] ++
+    flat_map (fun i => [Ld R_dst (q + 4 * i) 4; St R_dst (q + 4 * i) 4]) (seq 0 n) ++
+    [Ld R_dst q nb; St R_dst q nb].
+
+Definition snow3g_uea2_leak (key iv src dst : bytes) (bitlen bitoff : N) : M bytes :=
+  let aligned := (N.land bitlen 7 =? 0) && (N.land bitoff 7 =? 0) in
+  emits snow3g_keyiv_trace ;;;
+  emit (Br SITE_UEA2_ALIGNED aligned) ;;;
+  ksw <- (if aligned
+          then st <- snow3g_init_leak (snow3g_state0 key iv) ;; snow3g_gen_leak (snow3g_nwords bitlen) st
+          else st <- snow3g_init_c_leak (snow3g_state0 key iv) ;; snow3g_gen_c_leak (snow3g_nwords bitlen) st) ;;
+  emits (snow3g_uea2_dt aligned bitlen bitoff) ;;;
+  ret (snow3g_uea2_post ksw src dst bitlen bitoff).
+
+(** ** UIA2 job (asm path): 5 key-stream words, then the GF(2^64) evaluation (PCLMULQDQ) *)
+Definition snow3g_uia2_post (z : list N) (msg : bytes) (bitlen : N) : bytes :=
+  let P := N.lor (N.shiftl (nth_N z 0) 32) (nth_N z 1) in
+  let Q := N.lor (N.shiftl (nth_N z 2) 32) (nth_N z 3) in
+  let ev := fold_left (fun e m => snow3g_MUL64 (N.lxor e m) P 0x1B) (snow3g_msg_blocks msg bitlen) 0 in
+  let ev := snow3g_MUL64 (N.lxor ev (w64 bitlen)) Q 0x1B in
+  be32 (N.lxor (N.shiftr ev 32) (nth_N z 4)).
+Definition snow3g_uia2_dt (bitlen : N) : trace :=
+  let nblk := N.to_nat (N.shiftr (bitlen + 63) 6) in
+  flat_map (fun i => [Ld R_src (8 * i) 8]) (seq 0 nblk) ++ [St R_tag 0 4].
+Definition snow3g_uia2_leak (key iv msg : bytes) (bitlen : N) : M bytes :=
+  emits snow3g_keyiv_trace ;;;
+  st <- snow3g_init_leak (snow3g_state0 key iv) ;;
+  z <- snow3g_gen_leak 5 st ;;
+  emits (snow3g_uia2_dt bitlen) ;;;
+  ret (snow3g_uia2_post z msg bitlen).
+
+(** ** Public trace functions of SNOW3G *)
+Fixpoint gen_c_trace (n : nat) : trace :=
+  match n with
+  | O => []
+  | S O => snow3g_clock_trace_c
+  | S (S k) => snow3g_clock_trace_c ++ gen_c_trace k
+  end.
+Definition snow3g_uea2_trace (bitlen bitoff : N) : trace :=
+  let aligned := (N.land bitlen 7 =? 0) && (N.land bitoff 7 =? 0) in
+  snow3g_keyiv_trace ++ [Br SITE_UEA2_ALIGNED aligned] ++
+  (if aligned then concat (repeat snow3g_clock_trace (33 + snow3g_nwords bitlen))
+   else concat (repeat snow3g_clock_trace_c 17) ++ gen_c_trace (snow3g_nwords bitlen)) ++
+  snow3g_uea2_dt aligned bitlen bitoff.
+Definition snow3g_uia2_trace (bitlen : N) : trace :=
+  snow3g_keyiv_trace ++ concat (repeat snow3g_clock_trace 38) ++ snow3g_uia2_dt bitlen.
+
+(* ------------------------------------------------------------------------- *)
+(** * Table projection of a trace (used by checks/c19.py for the K7 tie)       *)
+(* ------------------------------------------------------------------------- *)
+(* region numbers: 0..7 DES sbox{j}p, 8 S7e, 9 S9e, 10 invSR_SQ, 11 mul_alpha, 12 div_alpha *)
+Definition region_id (r : region) : option nat :=
+  match r with
+  | R_des_sbox j => Some j
+  | R_kasumi_S7 => Some 8%nat
+  | R_kasumi_S9 => Some 9%nat
+  | R_snow3g_S2 => Some 10%nat
+  | R_snow3g_mula => Some 11%nat
+  | R_snow3g_diva => Some 12%nat
+  | _ => None
+  end.
+(* run-length encoding: (region, first offset, size, count, stride) *)
+Definition run := (nat * nat * nat * nat * nat)%type.
+Definition run_push (acc : list run) (r off sz : nat) : list run :=
+  match acc with
+  | (r0, o0, s0, c0, d0) :: t =>
+      if (Nat.eqb r r0 && Nat.eqb sz s0)%bool then
+        if Nat.eqb c0 1 then
+          if Nat.leb o0 off then (r0, o0, s0, 2%nat, (off - o0)%nat) :: t else (r, off, sz, 1%nat, 0%nat) :: acc
+        else if Nat.eqb off (o0 + c0 * d0) then (r0, o0, s0, S c0, d0) :: t
+        else (r, off, sz, 1%nat, 0%nat) :: acc
+      else (r, off, sz, 1%nat, 0%nat) :: acc
+  | [] => [(r, off, sz, 1%nat, 0%nat)]
+  end.
+Definition tab_rle (t : trace) : list run :=
+  rev (fold_left (fun acc e =>
+                    match e with
+                    | Ld r off sz => match region_id r with Some i => run_push acc i off sz | None => acc end
+                    | _ => acc
+                    end) t []).
